@@ -319,6 +319,46 @@ def fsm_case(MX, ops, pool, sd=SD):
     return "chk_trace [%s] [%s]" % ("; ".join(coq), "; ".join(exp))
 
 
+def check_caller_arrays(chk, MX, pool):
+    """a state whose position / rates are the caller's own NumPy arrays: the scene works with the values it was handed in the call,
+    whatever the caller does to its arrays afterwards (edit in place, hand the same dictionary over again)"""
+    for k in range(chk.q(2, 8)):
+        sd = copy.deepcopy(SD)
+        sd["scene"]["atmosphere"]["rho"] = "standard"
+        ac = pool[k % len(pool)]
+        pos = np.array([0.0, 0.0, -1000.0 - 500.0 * k])
+        rates = np.array([0.02, -0.01 * k, 0.03])
+        st = {"velocity": 90.0 + 5.0 * k, "alpha": 2.0 + 0.5 * k, "position": pos, "angular_rates": rates}
+        rep = dict(kind="caller-arrays", scene=sd, aircraft=ac, state={n: (v.tolist() if isinstance(v, np.ndarray) else v) for n, v in st.items()}, k=k)
+        chk.case(dict(kind="caller-arrays", k=k), nontrivial=True)
+        chk.count("op=caller-arrays")
+        try:
+            sc = MX.Scene(copy.deepcopy(sd))
+            sc.add_aircraft("A", copy.deepcopy(ac), state=st)
+            first = api.solve(sc)
+            # the caller re-uses its arrays; no call on the scene
+            new_pos, new_rates = [50.0, -20.0, -30000.0 + 1000.0 * k], [0.2, 0.1, -0.15]
+            pos[:] = new_pos
+            rates[:] = new_rates
+            again = api.solve(sc)
+            bad = api.compare(again, first, rtol=1e-12, atol=1e-12)
+            if bad:
+                chk.violation("caller-arrays:edit-without-call", dict(rep, what="editing the caller's arrays changed the results of the scene without any call",
+                                                                     new_position=new_pos, new_rates=new_rates, differences=bad[:6]))
+                continue
+            # the same dictionary handed over again: the results are those of a fresh scene in the new state
+            sc.set_aircraft_state(state=st, aircraft="A")
+            got = api.solve(sc)
+            fr = MX.Scene(copy.deepcopy(sd))
+            fr.add_aircraft("A", copy.deepcopy(ac), state=dict(st, position=list(new_pos), angular_rates=list(new_rates)))
+            bad = api.compare(got, api.solve(fr), rtol=2e-6, atol=2e-7)
+            if bad:
+                chk.violation("caller-arrays:same-dictionary-again", dict(rep, what="set_aircraft_state with the caller's (updated) arrays gives results of the earlier position / rates",
+                                                                         new_position=new_pos, new_rates=new_rates, differences=bad[:6]))
+        except Exception as e:
+            chk.count("caller-arrays-error=" + type(e).__name__)
+
+
 def run(chk):
     MX = common.setup_env()
     import machupX.helpers as H
@@ -402,6 +442,7 @@ def run(chk):
         if c:
             cases.append(c)
             descr.append(dict(ops=ops, scene=sd))
+    check_caller_arrays(chk, MX, pool)
     failing, nfiles, errors = common.run_cases("C07", IMPORTS, DEFS, cases, chunk=40)
     chk.cov["traces_validated_against_impl"] = len(cases)
     chk.cov["correspondence_cases"] = len(cases)
